@@ -181,6 +181,14 @@ def pattern_features(pattern):
 def classify_pattern_disagreement(pattern, address, real_matched):
     """Mechanism name for real != osc_match(pattern, address)."""
     try:
+        if '-]' in pattern:
+            # reading that drops a '-' before ']' instead of taking it literally
+            alt = pattern.replace('-]', ']')
+            loose = dict(cross_slash=True, prefix=True)
+            if not well_formed(alt) or (
+                    osc_match(alt, address, **loose) == real_matched
+                    and osc_match(pattern, address, **loose) != real_matched):
+                return 'trailing-minus-in-brackets'
         if real_matched:
             if osc_match(pattern, address, prefix=True):
                 return 'prefix-of-address-accepted'
@@ -191,12 +199,19 @@ def classify_pattern_disagreement(pattern, address, real_matched):
                 return 'prefix-of-address-accepted'
             return 'accepts-nonmatching'
         # spec says match, implementation says no
-        if '-]' in pattern:
-            return 'rejects-matching/trailing-minus-in-brackets'
         feats = sorted(pattern_features(pattern))
         return 'rejects-matching/' + ('+'.join(feats) if feats else 'literal')
     except PatternError:
         return 'malformed-pattern'
+
+
+def pattern_key(real_matched, cls):
+    """Mechanism key of a matcher disagreement (one key per defect, whichever
+    side it shows on)."""
+    if cls == 'trailing-minus-in-brackets':
+        return 'C18/pattern-mismatch/trailing-minus-in-brackets'
+    side = 'unexpected-invocation' if real_matched else 'missed-invocation'
+    return f'C18/{side}/pattern/{cls}'
 
 
 # ---------------------------------------------------------------- templates
